@@ -139,6 +139,13 @@ CANARIES = {
             # pattern, not an internal error of this library.
             errors = [exc]
 """, "        errors = run_validator(self.get('pattern'), '2.0')\n"], "C17.input-parsers-guarded"),
+        ("constraints-recursion-unguarded", "stix2/base.py", "text", ["""        try:
+            self._check_object_constraints()
+        except RecursionError:
+            raise ValueError(
+                "%s content is nested too deeply" % cls.__name__,
+            ) from None
+""", "        self._check_object_constraints()\n"], "C17.recursion-converted"),
     ],
     "C18": [
         ("own-filters-not-forwarded", "stix2/datastore/__init__.py", "delete-call-stmt", ["CompositeDataSource.query", "all_filters.add(self.filters)"], "C18.member-forward"),
